@@ -11,6 +11,8 @@ package c02_crash
 
 import (
 	"fmt"
+	"os"
+	"path/filepath"
 	"testing"
 
 	"pgregory.net/rapid"
@@ -163,6 +165,52 @@ func TestPropCrashRecovery(t *testing.T) {
 				crashes++
 				if cut > sz0 && hadDelete && hadTSM {
 					nontrivialCrash = true
+				}
+			},
+			// a write whose record in the field-change log (fields.idxl, appended before the WAL) is
+			// torn: the image holds a prefix of that record and nothing of the write's WAL record
+			"tornfields": func(t *rapid.T) {
+				if mc.Tainted {
+					return
+				}
+				idxl := filepath.Join(mc.F.DataDir(), "fields.idxl")
+				fsize := func() int64 {
+					st, err := os.Stat(idxl)
+					if err != nil {
+						return 0
+					}
+					return st.Size()
+				}
+				seg0, sz0 := mc.NewestWALSegment()
+				f0 := fsize()
+				before := mc.M.Clone()
+				hiddenBefore := mc.HiddenSnapshot()
+				mc.Write(gen.Batch(t, "tf", 6, &mc.Seq))
+				seg1, _ := mc.NewestWALSegment()
+				f1 := fsize()
+				if f1 <= f0 || seg1 == "" {
+					rec.Class("tornfields:no-new-field")
+					return
+				}
+				if seg1 != seg0 {
+					sz0 = 0
+				}
+				// inside the 8-byte length prefix, just after it, middle, last byte
+				cands := []int64{f0 + 1, f0 + 4, f0 + 7, f0 + 8, f0 + (f1-f0)/2, f1 - 1}
+				cut := rapid.SampledFrom(cands).Draw(t, "fcut")
+				if cut >= f1 {
+					cut = f1 - 1
+				}
+				mc.TornFiles(before, hiddenBefore, []eng.Cut{{Path: seg1, Size: sz0}, {Path: idxl, Size: cut}},
+					fmt.Sprintf("torn field-change log (fields.idxl cut at %d of %d..%d, WAL without the write)", cut, f0, f1), false)
+				crashes++
+				if f0 > 0 {
+					rec.Class("tornfields:after-earlier-records")
+				} else {
+					rec.Class("tornfields:first-record")
+				}
+				if cut < f0+8 {
+					rec.Class("tornfields:inside-length-prefix")
 				}
 			},
 			"": func(t *rapid.T) {
